@@ -448,6 +448,13 @@ theorem bank_windows_disjoint (banks : List Bank) (h : checkBankOverlap banks = 
   omega
 
 
+/-- **an accepted item's position in the output fits a machine word** (finding F81, repaired): the check that admits an
+    item into its bank also makes sure that `outp + position + size` is not taken modulo 2^64, so the item cannot land
+    outside its bank's window by wrapping around -/
+theorem accepted_item_is_addressable (b : Bank) (cur size : Nat) (write : Bool)
+    (h : checkBankOutput b cur size write = .ok ()) : ∀ o, b.outp = some o → o + cur + size < 2 ^ 64 :=
+  checkBankOutput_fits b cur size write h
+
 /-! ### bank fields (findings F65 and F57, repaired) -/
 
 /-- **`fill = false` does not fill**, `fill = true` and a bare `fill` do, and an absent field does not -/
